@@ -76,7 +76,8 @@ Fixpoint all2 {A B} (p : A -> B -> bool) (a : list A) (b : list B) : bool :=
    messages the client received.  The model is the code as it is: Send unbuffered (capacity 0). *)
 Inductive case :=
 | CS (maxf : N) (caps : list nat) (evs : list ev) (tap : list obsb) (reads : list (list obsb))
-| CW (seed blk : N) (evs : list wev) (frames : list obsb).
+| CW (seed blk : N) (evs : list wev) (frames : list obsb)
+| CD (seed blk : N) (evs : list dev) (recv : list obsb).   (* reconnecting destination: what it received, all connections *)
 
 Definition model (maxf : N) (caps : list nat) (evs : list ev) : st := run false (N.to_nat maxf) (init caps) evs.
 
@@ -95,6 +96,8 @@ Definition case_ok (c : case) : bool :=
       all2 obs_match (handed s) tap && all2 (all2 obs_match) (map got (cons s)) reads
   | CW seed blk evs frames =>
       all2 obs_match (map frame_bytes (wframes (wmodel seed blk evs))) frames
+  | CD seed blk evs recv =>
+      all2 obs_match (map snd (dout (drun (wmsg seed blk) 2 evs))) recv
   end.
 
 (* non-trivial (stream): at least two messages were handed on and some consumer read a message that had
@@ -117,6 +120,8 @@ Definition case_nontrivial (c : case) : bool :=
       (Nat.leb 2 (length (handed s))) && (exposed O [] evs || existsb (fun d => negb (beqb d [])) (dropped s))
   | CW seed blk evs frames =>
       Nat.leb 2 (length frames) && existsb (fun e => match e with WMiss _ => true | _ => false end) evs
+  | CD seed blk evs recv =>
+      Nat.leb 2 (length recv) && existsb (fun e => match e with DMiss _ => true | _ => false end) evs
   end.
 
 Definition case_flags (c : case) : list bool * list (list bool) :=
@@ -127,6 +132,8 @@ Definition case_flags (c : case) : list bool * list (list bool) :=
        map (fun p => map (fun q => obs_match (fst q) (snd q)) (combine (fst p) (snd p))) (combine (map got (cons s)) reads))
   | CW seed blk evs frames =>
       (map (fun p => obs_match (fst p) (snd p)) (combine (map frame_bytes (wframes (wmodel seed blk evs))) frames), [])
+  | CD seed blk evs recv =>
+      (map (fun p => obs_match (fst p) (snd p)) (combine (map snd (dout (drun (wmsg seed blk) 2 evs))) recv), [])
   end.
 
 Definition mismatches (cs : list case) : list N := mismatch_idx case_ok 0 cs.
